@@ -40,9 +40,9 @@ def gen_calls(rng, ploidy, vs):
         while len(set(het)) < 2:
             het = [rng.randint(0, 1) for _ in range(ploidy)]
         hom = [rng.randint(0, 1)] * ploidy
-        if x < 0.74:
+        if x < 0.78:
             calls.append({"gt": het, "phased": True, "ps": ps_of[block[i]]})
-        elif x < 0.82:
+        elif x < 0.84:
             calls.append({"gt": sorted(het), "phased": False, "ps": None})
         elif x < 0.90:
             calls.append({"gt": hom, "phased": True, "ps": ps_of[block[i]]})
@@ -107,7 +107,7 @@ def gen_reads(rng, case, sample, chrom, n, rgs_of_sample):
         seq, cig = synth.hap_walk(ref, vobjs, alleles, s, e)
         rg = rng.choice(rgs_of_sample) if rgs_of_sample else None
         a = dict(name=name, chrom=chrom, start=s, cigar=[list(x) for x in cig], seq=seq, quals=_quals(rng, len(seq)),
-                 flag=0, mapq=rng.choice([60, 60, 60, 30, 20, 19, 5]), rg=rg, tags=[], sample=sample)
+                 flag=0, mapq=rng.choice([60, 60, 60, 60, 60, 30, 20, 19, 5]), rg=rg, tags=[], sample=sample)
         if rng.random() < 0.2:                  # proper pair; the mate follows after a gap
             gap = rng.randint(5, 60)
             iv2 = _pick_interval(rng, vobjs, L, rng.randint(40, 140), lo=e + gap)
